@@ -148,4 +148,15 @@ PROPS = {
             "thorough": [dict(test="TestC08Threshold", checks=1500, shards=16, timeout=3000)],
         },
     ),
+    "C10": dict(
+        kind="ext", pkg="./c10", level="exploration", engine="specsign",
+        technique="property-based mutation testing (rapid): valid submissions for every validator-API endpoint and peer messages for every duty type, signed with an independent eth2 signing table; one generated alteration; oracle decides from independently recomputed signing roots whether rejection is mandatory",
+        level_text="Every signature-accepting entry point of the production validatorapi component and the production parsigex handler (over memnet, with NewEth2Verifier and NewDutyGater): the valid submission is admitted exactly once per subscriber, "
+                   "every alteration that changes the signing root, the signature, the named validator, the agreed proposal payload, the claimed share or the admissibility of the duty is rejected before any subscriber runs.",
+        level_note="Signing roots and domains come from specsign / fakebn; alterations of unsigned metadata assert nothing; pre-merge proposals are outside the signing flow; cryptographic negatives are statistical.",
+        runs={
+            "quick": [dict(test="TestC10ValidatorAPI", checks=500, shards=4, shrinktime="10s"), dict(test="TestC10PeerPath", checks=700, shards=2, shrinktime="10s")],
+            "thorough": [dict(test="TestC10ValidatorAPI", checks=12000, shards=10, timeout=3000), dict(test="TestC10PeerPath", checks=20000, shards=6, timeout=3000)],
+        },
+    ),
 }
